@@ -13,6 +13,8 @@ pub fn work(family: &str, prop: &str, tier: u8, seed: u64, idx: usize) -> Rec {
         "sync" => fam_sync::work(prop, tier, seed, idx),
         "race" => fam_race::work(tier, seed, idx),
         "arc" => arcs::work(prop, tier, seed, idx),
+        "arcgate" => arcs::gate_work(idx),
+        "rmwspin" => fam_spin::rmw_work(idx),
         "diff" => fam_diff::work(tier, seed, idx),
         "iso" => fam_iso::work(tier, seed, idx),
         "spin" => fam_spin::work(tier, seed, idx),
@@ -126,7 +128,7 @@ fn def(prop: &str, tier: u8) -> Option<Def> {
         },
         "C04" => Def {
             memcheck: mc,
-            parts: vec![("race", fam_race::total(tier)), ("sync", fam_sync::total(prop, tier))],
+            parts: vec![("race", fam_race::total(tier)), ("sync", fam_sync::total(prop, tier)), ("arcgate", arcs::gate_total())],
             clauses: vec!["missed_race", "false_race", "unexpected_panic", "loom_internal_panic", "process_died"],
             rule: "atomics part: a cell written by one thread and accessed by another behind an await loop, connected by every store/load ordering pair over one hop, two hops through a relay, an RMW in between, a same-thread relaxed store, fence pairs of every strength, spawn/join edges, unsync_load against atomic stores (enumerated) + random litmus programs with cell accesses; sync part: cells combined with mutex/rwlock hand-over, channel messages, join, park/unpark, Notify, condvar (pinned + random). must_report = some consistent execution under the strong reading races; must_not_report = none under the weak reading; the gap decides nothing. non-trivial = oracle verdict outside the gap and >= 2 threads with operations",
             trusted: vec!["harness/src/rc11.rs race_verdict", "harness/src/sync.rs reference machine (vector clocks over the documented edges)", "interpreters"],
@@ -208,7 +210,7 @@ fn def(prop: &str, tier: u8) -> Option<Def> {
         },
         "C18" => Def {
             memcheck: mc,
-            parts: vec![("spin", fam_spin::total(tier))],
+            parts: vec![("spin", fam_spin::total(tier)), ("rmwspin", fam_spin::rmw_total())],
             clauses: vec!["spin_no_progress", "spin_missing_exit", "spin_cut_off", "spin_forbidden_exit", "unexpected_panic"],
             rule: "programs with await loops (`loop { v = x.load(o); if v != 0 { break } yield_now() }`, a quarter with hint::spin_loop) at any position of any thread, never two threads spinning at once: flag + data, awaited location written twice, two writers, two waiters in a chain, in every store/load ordering pair (enumerated) + random litmus programs with one inserted await and (7 of 8) an inserted store that establishes it; three never-true loops. The reference treats an await as a blocking read of any allowed non-zero value (RC11 strong for `must explore`, weak for `must not produce`); max_branches lowered to 300. non-trivial = the reference allows >= 2 outcomes, or the condition can stay false",
             trusted: vec!["harness/src/rc11.rs (await = blocking read)", "harness/src/lit.rs interpreter"],
@@ -382,7 +384,7 @@ pub fn replay(path: &str) -> i32 {
             let p: lit::Prog = serde_json::from_value(v["program_json"].clone()).expect("program_json");
             fam_lit::judge(prop, &p, &mut rec, true, 1);
         }
-        "iso" | "diff" | "statics_idx" => {
+        "iso" | "diff" | "statics_idx" | "arcgate" | "rmwspin" => {
             // these families are replayed by job index: the job is a deterministic function of (tier, seed, idx)
             let tier = if v["tier"].as_str() == Some("thorough") { 1 } else { 0 };
             rec = work(family, prop, tier, v["seed"].as_u64().unwrap_or(0), v["idx"].as_u64().unwrap_or(0) as usize);
